@@ -153,7 +153,12 @@ def Lib.register (l : Lib) (env : Env) (path : Path) (flags : BitVec 32) (recurs
   match env.addWatch path flags' with
   | .error e => (l, env, { ret := some (.errno e), sys := [.addWatch path flags'] })
   | .ok wd =>
-    let env' := if env.marks.contains wd then env else { env with marks := wd :: env.marks }
+    let env1 := if env.marks.contains wd then env else { env with marks := wd :: env.marks }
+    -- the path was listed but now names another file: release the old kernel watch (errors ignored)
+    let (env', rmSys) : Env × List Sys :=
+      match existing with
+      | some e => if e.wd != wd then ((env1.rm e.wd).1, [Sys.rmWatch e.wd]) else (env1, [])
+      | none => (env1, [])
     let upd : Watch :=
       match alLookup wd l.wdT with
       | some e => e
@@ -164,7 +169,9 @@ def Lib.register (l : Lib) (env : Env) (path : Path) (flags : BitVec 32) (recurs
     let wdT1 := alInsert upd.wd upd l.wdT
     let pathT1 := alInsert upd.path upd.wd l.pathT
     let wdT2 := if upd.wd != oldWd then alErase oldWd wdT1 else wdT1
-    ({ l with wdT := wdT2, pathT := pathT1 }, env', { sys := [.addWatch path flags'] })
+    -- the new file is already listed under another path: that entry wins, this path is dropped
+    let pathT2 := if upd.wd != oldWd && alHas path l.pathT && upd.path != path then alErase path pathT1 else pathT1
+    ({ l with wdT := wdT2, pathT := pathT2 }, env', { sys := .addWatch path flags' :: rmSys })
 
 /-- `AddWith` without recursion (`ops`/`noFollow` as given by the options) -/
 def Lib.add (l : Lib) (env : Env) (arg : Path) (ops : BitVec 32) (noFollow : Bool) : Lib × Env × Out :=
@@ -215,14 +222,17 @@ def Lib.emit (l : Lib) (env : Env) (out : Out) (br : Branch) (w : Watch) (r : Ra
     else ⟨res.1, env, { out with events := [res.2] }, br⟩
 
 /-- the `IN_MOVE_SELF` branch for a non-recursive watch: `w.remove(watch.path)`; every error but
-`ErrNonExistentWatch` is forwarded to Errors; then the common tail -/
+`ErrNonExistentWatch` and `EINVAL` is forwarded to Errors; then the common tail -/
 def Lib.afterMoveSelf (l1 : Lib) (env : Env) (w : Watch) (r : Raw) : HRes :=
   let res := l1.remove env w.path
   if res.2.2.panic then ⟨res.1, res.2.1, res.2.2, .moveSelfRemoved⟩
   else match res.2.2.ret with
     | none => res.1.emit res.2.1 { sys := res.2.2.sys } .moveSelfRemoved w r
     | some .nonExistentWatch => res.1.emit res.2.1 { sys := res.2.2.sys } .moveSelfRemoved w r
-    | some e => res.1.emit res.2.1 { sys := res.2.2.sys, errors := [e] } .moveSelfError w r
+    | some e =>
+      -- EINVAL: the kernel dropped the watch already (the moved file was deleted): not an error
+      if e == .errno "EINVAL" then res.1.emit res.2.1 { sys := res.2.2.sys } .moveSelfRemoved w r
+      else res.1.emit res.2.1 { sys := res.2.2.sys, errors := [e] } .moveSelfError w r
 
 /-- the state after the `IN_DELETE_SELF` clean-up -/
 def Lib.afterDeleteSelf (l : Lib) (w : Watch) (r : Raw) : Lib :=
